@@ -194,7 +194,12 @@ func (e *exEnv) listAll(sub string) []string {
 var exOps = []string{"walk", "ls", "lsrecursive", "listdirtree", "subdirectories", "copy", "zip", "remove", "clean"}
 
 // runExOp returns the set of entries (relative to r) the operation processed
-func runExOp(e *exEnv, op string, pats []string) (processed []string, err error) {
+// the caller's pattern buffer: one backing array reused from call to call and overwritten in place, as a caller
+// that builds its pattern list in a scratch slice does
+var exPatBuf = make([]string, 0, 16)
+
+func runExOp(e *exEnv, op string, patsIn []string) (processed []string, err error) {
+	pats := append(exPatBuf[:0], patsIn...)
 	ctx := context.Background()
 	root := filepath.Join(e.base, "r")
 	rel := func(p string) string {
